@@ -10,6 +10,7 @@ import (
 	"fmt"
 	"os"
 	"path/filepath"
+	"runtime"
 	"strings"
 )
 
@@ -21,6 +22,8 @@ type chunk struct {
 }
 
 func main() {
+	// thousands of these processes can be alive at once under the checker: one scheduler thread each is enough
+	runtime.GOMAXPROCS(1)
 	in := bufio.NewReaderSize(os.Stdin, 1<<20)
 	out := bufio.NewWriter(os.Stdout)
 	if f := os.Getenv("VCONV_COUNT_FILE"); f != "" {
